@@ -419,3 +419,34 @@ Lemma ex_defused_get :
   call_query QDefused 0%nat ex_stop_state = (ex_stop_state, Ok (vbool false)) /\
   snd (gen_Event_defused_get (defused ev)) = false.
 Proof. eexists. split; [reflexivity|]. split; reflexivity. Qed.
+
+(* ---- the read-only properties of Event: triggered, processed, ok, value ----------------------------------------------- *)
+Definition value_fx (ev : event) (s : state) (fx : list kernel_fx) : option (state * outcome) :=
+  match fx with
+  | [FxRaiseValuePending] => Some (s, Fail (kexn EAttribute M_value_pending))
+  | [FxReturnValue] => match raw_value ev with Some v => Some (s, Ok v) | None => None end
+  | _ => None
+  end.
+
+Lemma bridge_event_queries e s ev :
+  get_event e s = Some ev ->
+  call_query QTriggered e s = (s, Ok (vbool (snd (gen_Event_triggered (is_triggered ev))))) /\
+  call_query QProcessed e s = (s, Ok (vbool (snd (gen_Event_processed (is_processed ev))))) /\
+  (forall o, out ev = Some o ->
+     call_query QOk e s = (s, Ok (vbool (snd (gen_Event_ok (match o with Ok _ => true | Fail _ => false end)))))) /\
+  value_fx ev s (gen_Event_value (negb (is_triggered ev))) = Some (call_query QValue e s).
+Proof.
+  intros H. unfold call_query, gen_Event_value, value_fx, is_triggered, raw_value. rewrite H.
+  split; [reflexivity|]. split; [reflexivity|]. split.
+  - intros o Ho. rewrite Ho. destruct o; reflexivity.
+  - destruct (out ev) as [[v|x]|]; reflexivity.
+Qed.
+
+Lemma ex_event_queries :
+  exists ev, get_event 0%nat ex_stop_state = Some ev /\ out ev = Some (Ok (VInt 7)) /\
+  call_query QTriggered 0%nat ex_stop_state = (ex_stop_state, Ok (vbool true)) /\
+  call_query QProcessed 0%nat ex_stop_state = (ex_stop_state, Ok (vbool false)) /\
+  call_query QOk 0%nat ex_stop_state = (ex_stop_state, Ok (vbool true)) /\
+  call_query QValue 0%nat ex_stop_state = (ex_stop_state, Ok (VInt 7)) /\
+  gen_Event_value (negb (is_triggered ev)) = [FxReturnValue].
+Proof. eexists. split; [reflexivity|]. repeat split; reflexivity. Qed.
